@@ -1,7 +1,8 @@
 //! C11 — multi-window results are joins of what each window itself reported.
-//! E-in over pairs of in-order streams (every interleaving) on real two-window RSP engines
-//! (SingleThread; policies Wait and Steal; with and without static data; window blocks sharing or
-//! not sharing vocabulary), oracle = per-window probe windows + BGP evaluation.
+//! E-in over tuples of in-order streams (every interleaving) on real multi-window RSP engines
+//! (SingleThread and, under the baton scheduler, MultiThread; every synchronisation policy; with and
+//! without static data; window blocks sharing or not sharing vocabulary; two and three windows;
+//! alternative spellings of the same query), oracle = per-window probe windows + BGP evaluation.
 use crate::explore::sched;
 use crate::infra::{guarded, Ctx, PropDef, ShardOut};
 use crate::reference::sparql_ast::*;
@@ -17,11 +18,13 @@ use std::sync::{Arc, Mutex};
 pub const DEF: PropDef = PropDef {
     id: "C11",
     level: "exploration",
-    rule: "single-thread cases = (vocabulary variant, window parameters, sync policy, static data yes/no, two in-order streams, interleaving): two-window engines built with RSPBuilder in SingleThread mode; variants: both blocks over the same predicate (shared vocabulary), disjoint predicates, blocks sharing a join variable, blocks joining on TWO variables over prefix-related literal values (value pairs that differ while their concatenations coincide, events carrying two triples), and a static part joining with a block on two variables; (width,slide) of each window from {(2,1),(2,2)}; policies Wait and Steal; static background data (a triple over the same predicate) present or not, with a static pattern in the WHERE clause; streams of <=3 items each over a 2-triple alphabet per stream with gaps {1} (thorough {1,2}); EVERY interleaving of the two streams. Oracle, per emitted row and per window i: the row restricted to block i's variables must be an answer of block i over SOME content that a probe window with window i's parameters, fed only stream i, has reported so far; the restriction to the static variables must be an answer over the static data alone. A failing row is tagged explained_by=other_windows_content_visible when it becomes an answer once the contents reported by the OTHER window (or the static data) are added to window i's content - the shared-store defect - and explained_by=nothing otherwise. Multi-thread family (hook H1 baton scheduler with one worker per window and the coordinator thread, channels named per window plus the results channel, deadline expiry of the coordinator's timed receive enumerated as a scheduling choice): disjoint-, two-join-variable and shared-vocabulary variants x policies {Wait, Steal, Timeout+Steal, Timeout+Drop} x every interleaving of two streams of <=2 items each (quick: <=3 items in total) under EVERY schedule with <=1 (thorough 2) preemptions; every emitted row must bind the variables of both blocks and each block part must be an answer over a content its own window reports. Non-trivial = single-thread case in which both windows reported a non-empty content, multi-thread case that emits rows; distinct by case.",
+    rule: "single-thread cases = (vocabulary variant, window parameters, sync policy, static data yes/no, query spelling, in-order streams, interleaving) on engines built with RSPBuilder in SingleThread mode. MAIN family: two-window variants: both blocks over the same predicate (shared vocabulary), disjoint predicates, blocks sharing a join variable, blocks joining on TWO variables over prefix-related literal values (value pairs that differ while their concatenations coincide, events carrying two triples), a static part joining with a block on two variables (its static data also holds triples over the block predicates that answer no static pattern), and window blocks over disjoint predicates while the STATIC pattern and data use the predicate of block 1 (static data can only show up in a block, and window items in the static part, by leaking); (width,slide) of each window from {(2,1),(2,2)}; policies Wait and Steal; static background data present or not, with a static pattern in the WHERE clause (the static-shares-vocabulary variant only with: without static data it is the disjoint variant); streams of <=3 items each over a 2-event alphabet per stream with gaps {1} (thorough {1,2}); EVERY interleaving of the streams. After the last item the pending window results are drained through the public process_single_thread_window_results() and the rows it emits are judged like all others (otherwise the last firing is never observed). CONFIG family (streams of <=2 items each, every interleaving, static yes/no, window pairs (2,1)x(2,1) and (2,2)x(2,1), variants shared / disjoint / two-join-variables / static-shares-vocabulary; thorough: all four pairs and the full product of the dimensions, incl. ISTREAM/DSTREAM, under Wait and Steal, the timeout policies wherever the policy is in the text): the same queries under other spellings/configurations: prefix-related stream and window names (:s/:s1/:s12, :w/:w1/:w12) and <http://e/s>-style stream IRIs (always fed under exactly the spelling used in the query), WINDOW blocks written in reverse order with the static pattern first, the policy given as WITH POLICY in the query text (on the last FROM NAMED WINDOW clause) instead of set_sync_policy (all four policies), policies Timeout+Steal and Timeout+Drop through the builder (single-thread: no timer), and prefix-related names + reversed blocks + policy in the text + ISTREAM together. OPS family: ISTREAM and DSTREAM instead of RSTREAM on the static-shares-vocabulary variant with static data, policies Wait and Steal, streams of <=3 items with gap 2 (items at t=2,4,6, so that consecutive reported contents differ and DSTREAM really emits), every interleaving. THREE-WINDOW family: three windows over three streams with disjoint predicates whose blocks join in a chain (?a p ?j . / ?j q ?k . / ?k s ?f .), streams of <=2 items each (alphabets of 2,2,1 events), every interleaving of the three streams, window triples (2,1)^3 and (2,2)(2,1)(2,1) (thorough: all eight), policies Wait and Steal, static yes/no. SPARSE family (thorough only): gaps {1,3} (items at t,t+1,t+4: the window reports an EMPTY content after a non-empty one), one event per stream, streams of <=3 items each, disjoint-vocabulary and static-shares-vocabulary variants, static present, all four window pairs. Oracle, per emitted row and per window i (all three stream operators: an ISTREAM/DSTREAM row is a row of the current/previous join): the row must bind every variable of block i; window i's probe must have reported at least once (symptom row_emitted_before_own_window_reported otherwise - no content of that window exists yet; a feed in which one stream is silent must therefore emit nothing); the row restricted to block i's variables must be an answer of block i over SOME content that a probe window with window i's parameters, fed only stream i, has reported so far; the restriction to the static variables must be an answer over the static data alone. A failing block part is tagged explained_by=other_windows_content_visible when it becomes an answer once the contents reported by the OTHER windows are added to window i's content - the shared-store defect -, explained_by=static_data_visible when it becomes an answer once the static data (and not the other windows' items) are added, explained_by=other_windows_content_and_static_data_visible when it needs both, and explained_by=nothing otherwise. Multi-thread family (hook H1 baton scheduler with one worker per window and the coordinator thread, channels named per window plus the results channel, deadline expiry of the coordinator's timed receive enumerated as a scheduling choice): MAIN sub-family: disjoint- and shared-vocabulary (thorough: also two-join-variable) variants x policies {Wait, Steal, Timeout+Steal, Timeout+Drop} x every interleaving of two streams of <=2 items each (quick: <=3 items in total - no engine whose blocks are over disjoint predicates can emit a row there, because both windows must have reported a non-empty content) under EVERY schedule with <=1 (thorough 2) preemptions; a ROWS sub-family in which both streams carry two items at t=1,2 (every interleaving), so that both windows report a non-empty content and engines over disjoint predicates really emit joined rows in MultiThread mode: two-join-variable variant (stream 2 in both event orders: the genuinely joining pair and the pair whose concatenated values collide), and static-join-on-two-variables WITH static data and the policy given as WITH POLICY in the query text, all four policies, <=1 preemption in both tiers (thorough adds the window pair (2,2)x(2,1)); a THREE-WINDOW sub-family (three workers + coordinator, chain-join variant, one event per stream, two items per stream; quick: the six block orders of the streams under every NON-PREEMPTIVE schedule, thorough: every interleaving non-preemptively and the block orders with <=1 preemption); every emitted row must bind the variables of all blocks, each block part must be an answer over a content its own window reports over the whole feed, the static part an answer over the static data. Non-trivial = single-thread case in which every window reported a non-empty content AND rows were emitted, multi-thread case that emits rows; distinct by case.",
     assumptions: &[
         "stop()'s flush is excluded (engines are dropped); multi-thread scheduling points: channel sends/receives, thread start/end, after each window processor, the coordinator's timed receive (deadline expiry is a choice), no points inside mutexes",
         "the probe windows are real CSPARQLWindows (C09's subject)",
-        "'reported so far' is taken generously (any content the probe reported up to and including the current stream item), so the oracle is not stricter than the statement",
+        "'reported so far' is taken generously (any content the probe reported up to and including the current stream item), so the oracle is not stricter than the statement; this also makes it valid for ISTREAM and DSTREAM (their rows are rows of the current or of the previous join)",
+        "streams are always fed under exactly the name spelled in the query (whether ':s1' and 's1' denote the same stream is not decided by the statement)",
+        "the final drain uses the public RSPEngine::process_single_thread_window_results(), which add_to_stream itself calls first thing in SingleThread mode",
     ],
     run,
     replay,
@@ -41,97 +44,133 @@ fn c(l: &str) -> T {
     T::iri(&iri(l))
 }
 
+pub type Fact = (String, String, String);
+/// one event = the triples that arrive together under one timestamp
+pub type Event = Vec<Fact>;
+
 #[derive(Clone, Debug)]
 pub struct Variant {
     pub name: &'static str,
-    pub block1: Vec<TP>,
-    pub block2: Vec<TP>,
-    /// stream alphabets: one event = the triples that arrive together under one timestamp
-    pub alpha1: Vec<Vec<(String, String, String)>>,
-    pub alpha2: Vec<Vec<(String, String, String)>>,
+    /// one WINDOW block per window
+    pub blocks: Vec<Vec<TP>>,
+    /// one event alphabet per stream (stream i feeds window i)
+    pub alphas: Vec<Vec<Event>>,
     pub static_pattern: Vec<TP>,
-    pub static_data: Vec<(String, String, String)>,
-    /// objects are plain literals (lexical form = the string itself) instead of IRIs
-    pub literal_objects: bool,
+    pub static_data: Vec<Fact>,
 }
 
-fn t3(s: &str, p: &str, o: &str) -> (String, String, String) {
+fn t3(s: &str, p: &str, o: &str) -> Fact {
     (iri(s), iri(p), iri(o))
 }
-fn e1(s: &str, p: &str, o: &str) -> Vec<(String, String, String)> {
+fn e1(s: &str, p: &str, o: &str) -> Event {
     vec![t3(s, p, o)]
 }
 /// event carrying two literal-valued triples of one subject
-fn e2(s: &str, p1: &str, o1: &str, p2: &str, o2: &str) -> Vec<(String, String, String)> {
+fn e2(s: &str, p1: &str, o1: &str, p2: &str, o2: &str) -> Event {
     vec![(iri(s), iri(p1), o1.to_string()), (iri(s), iri(p2), o2.to_string())]
 }
+
+pub const V_SHARED: usize = 0;
+pub const V_DISJOINT: usize = 1;
+pub const V_TWO_JOIN: usize = 3;
+pub const V_STATIC_TWO: usize = 4;
+pub const V_STATIC_SHARES: usize = 5;
+pub const V_THREE: usize = 6;
+/// number of two-window variants (indices 0..N2)
+pub const N2: usize = 6;
 
 pub fn variants() -> Vec<Variant> {
     vec![
         Variant {
             name: "shared_vocabulary",
-            block1: vec![tp(v("a"), c("p"), v("b"))],
-            block2: vec![tp(v("c"), c("p"), v("d"))],
-            alpha1: vec![e1("x1", "p", "y1"), e1("x2", "p", "y1")],
-            alpha2: vec![e1("u1", "p", "v1"), e1("u2", "p", "v1")],
+            blocks: vec![vec![tp(v("a"), c("p"), v("b"))], vec![tp(v("c"), c("p"), v("d"))]],
+            alphas: vec![vec![e1("x1", "p", "y1"), e1("x2", "p", "y1")], vec![e1("u1", "p", "v1"), e1("u2", "p", "v1")]],
             static_pattern: vec![tp(v("m"), c("p"), v("n"))],
             static_data: vec![t3("k1", "p", "k2")],
-            literal_objects: false,
         },
         Variant {
             name: "disjoint_vocabulary",
-            block1: vec![tp(v("a"), c("p"), v("b"))],
-            block2: vec![tp(v("c"), c("q"), v("d"))],
-            alpha1: vec![e1("x1", "p", "y1"), e1("x2", "p", "y1")],
-            alpha2: vec![e1("u1", "q", "v1"), e1("u2", "q", "v1")],
+            blocks: vec![vec![tp(v("a"), c("p"), v("b"))], vec![tp(v("c"), c("q"), v("d"))]],
+            alphas: vec![vec![e1("x1", "p", "y1"), e1("x2", "p", "y1")], vec![e1("u1", "q", "v1"), e1("u2", "q", "v1")]],
             static_pattern: vec![tp(v("m"), c("r"), v("n"))],
             static_data: vec![t3("k1", "r", "k2")],
-            literal_objects: false,
         },
         Variant {
             name: "join_variable_shared_vocabulary",
-            block1: vec![tp(v("a"), c("p"), v("j"))],
-            block2: vec![tp(v("j"), c("p"), v("d"))],
-            alpha1: vec![e1("x1", "p", "y1"), e1("y1", "p", "z1")],
-            alpha2: vec![e1("y1", "p", "z1"), e1("z1", "p", "x1")],
+            blocks: vec![vec![tp(v("a"), c("p"), v("j"))], vec![tp(v("j"), c("p"), v("d"))]],
+            alphas: vec![vec![e1("x1", "p", "y1"), e1("y1", "p", "z1")], vec![e1("y1", "p", "z1"), e1("z1", "p", "x1")]],
             static_pattern: vec![tp(v("m"), c("p"), v("n"))],
             static_data: vec![t3("z1", "p", "k2")],
-            literal_objects: false,
         },
         // two join variables over literal values chosen so that the value pairs differ but their
         // concatenations coincide ("1"+"23" = "12"+"3"): a join keyed on anything coarser than the
         // pair of values merges rows that do not agree. Events x1/u2 and x2/u1 genuinely join.
         Variant {
             name: "two_join_variables_prefix_related_values",
-            block1: vec![tp(v("a"), c("p"), v("j")), tp(v("a"), c("q"), v("k"))],
-            block2: vec![tp(v("d"), c("r"), v("j")), tp(v("d"), c("s"), v("k"))],
-            alpha1: vec![e2("x1", "p", "1", "q", "23"), e2("x2", "p", "12", "q", "3")],
-            alpha2: vec![e2("u1", "r", "12", "s", "3"), e2("u2", "r", "1", "s", "23")],
+            blocks: vec![vec![tp(v("a"), c("p"), v("j")), tp(v("a"), c("q"), v("k"))], vec![tp(v("d"), c("r"), v("j")), tp(v("d"), c("s"), v("k"))]],
+            alphas: vec![vec![e2("x1", "p", "1", "q", "23"), e2("x2", "p", "12", "q", "3")], vec![e2("u1", "r", "12", "s", "3"), e2("u2", "r", "1", "s", "23")]],
             static_pattern: vec![tp(v("m"), c("t"), v("n"))],
             static_data: vec![(iri("k1"), iri("t"), "7".to_string())],
-            literal_objects: true,
         },
         // the static part joins with a window block on two variables (same value design)
         Variant {
             name: "static_join_on_two_variables",
-            block1: vec![tp(v("a"), c("p"), v("j")), tp(v("a"), c("q"), v("k"))],
-            block2: vec![tp(v("c"), c("r"), v("d"))],
-            alpha1: vec![e2("x1", "p", "1", "q", "23"), e2("x2", "p", "12", "q", "3")],
-            alpha2: vec![e1("u1", "r", "v1"), e1("u2", "r", "v1")],
+            blocks: vec![vec![tp(v("a"), c("p"), v("j")), tp(v("a"), c("q"), v("k"))], vec![tp(v("c"), c("r"), v("d"))]],
+            alphas: vec![vec![e2("x1", "p", "1", "q", "23"), e2("x2", "p", "12", "q", "3")], vec![e1("u1", "r", "v1"), e1("u2", "r", "v1")]],
             static_pattern: vec![tp(v("m"), c("t"), v("j")), tp(v("m"), c("u"), v("k"))],
-            static_data: vec![(iri("k1"), iri("t"), "12".to_string()), (iri("k1"), iri("u"), "3".to_string())],
-            literal_objects: true,
+            // (k1 t "12")(k1 u "3") join block 1's event x2; the other three triples answer no static
+            // pattern: they are over the predicates of the window blocks, so they can only appear in a
+            // row if static data leaks into the window store
+            static_data: vec![(iri("k1"), iri("t"), "12".to_string()), (iri("k1"), iri("u"), "3".to_string()), t3("k3", "r", "k4"), (iri("k5"), iri("p"), "9".to_string()), (iri("k5"), iri("q"), "8".to_string())],
+        },
+        // the window blocks do not share vocabulary with each other (so the shared-store defect is
+        // silent), but the static pattern/data use block 1's predicate (and the static data also
+        // holds a triple over block 2's predicate): a static triple showing up in a block, or a
+        // window item showing up in the static part, can only be a leak between the two stores.
+        Variant {
+            name: "static_shares_vocabulary_windows_disjoint",
+            blocks: vec![vec![tp(v("a"), c("p"), v("b"))], vec![tp(v("c"), c("q"), v("d"))]],
+            alphas: vec![vec![e1("x1", "p", "y1"), e1("x2", "p", "y1")], vec![e1("u1", "q", "v1"), e1("u2", "q", "v1")]],
+            static_pattern: vec![tp(v("m"), c("p"), v("n"))],
+            static_data: vec![t3("k1", "p", "k2"), t3("k3", "q", "k4")],
+        },
+        // three windows over three streams, disjoint predicates, blocks joining in a chain:
+        // (x1 p y1)(y1 q z1)(z1 s v1) joins, (x2 p y2)/(y2 q z1) join each other but x1/y2 do not
+        Variant {
+            name: "three_windows_chain_join_disjoint_vocabulary",
+            blocks: vec![vec![tp(v("a"), c("p"), v("j"))], vec![tp(v("j"), c("q"), v("k"))], vec![tp(v("k"), c("s"), v("f"))]],
+            alphas: vec![vec![e1("x1", "p", "y1"), e1("x2", "p", "y2")], vec![e1("y1", "q", "z1"), e1("y2", "q", "z1")], vec![e1("z1", "s", "v1")]],
+            static_pattern: vec![tp(v("m"), c("t"), v("f"))],
+            static_data: vec![t3("k1", "t", "v1"), t3("k1", "t", "v2")],
         },
     ]
 }
 
 pub const WIN: [(usize, usize); 2] = [(2, 1), (2, 2)];
 
+/// spellings of the stream / window names; scheme 1 is prefix-related, scheme 2 uses <IRI> streams
+pub const STREAM_NAMES: [[&str; 3]; 3] = [[":s1", ":s2", ":s3"], [":s", ":s1", ":s12"], ["<http://e/s>", "<http://e/s1>", "<http://e/s12>"]];
+pub const WINDOW_NAMES: [[&str; 3]; 3] = [[":w1", ":w2", ":w3"], [":w", ":w1", ":w12"], [":w1", ":w2", ":w3"]];
+pub const NAMES_TAG: [&str; 3] = ["plain", "prefix_related", "angle_iri"];
+pub const OPS: [&str; 3] = ["RSTREAM", "ISTREAM", "DSTREAM"];
+
+/// spelling / configuration of the query text (all denote the same continuous query)
+#[derive(Clone, Copy, Debug, PartialEq, Eq, Hash)]
+pub struct Cfg {
+    pub names: usize,
+    /// 0: WINDOW blocks in FROM order, static pattern last; 1: blocks reversed, static pattern first
+    pub layout: usize,
+    /// policy written as WITH POLICY on the last FROM NAMED WINDOW clause instead of set_sync_policy
+    pub policy_in_text: bool,
+    pub op: usize,
+}
+pub const BASE: Cfg = Cfg { names: 0, layout: 0, policy_in_text: false, op: 0 };
+
 fn pat(ts: &[TP]) -> String {
     ts.iter().map(|t| format!("{} {} {} .", print_term(&t.s), print_term(&t.p), print_term(&t.o))).collect::<Vec<_>>().join(" ")
 }
 
-fn line(t: &(String, String, String)) -> String {
+fn line(t: &Fact) -> String {
     if t.2.starts_with("http://") {
         format!("<{}> <{}> <{}> .", t.0, t.1, t.2)
     } else {
@@ -140,20 +179,86 @@ fn line(t: &(String, String, String)) -> String {
 }
 
 pub type Row = Vec<(String, String)>;
-/// (stream 0|1, alphabet index, timestamp)
+/// (stream index, alphabet index, timestamp)
 pub type Feed = Vec<(usize, usize, usize)>;
+
+#[derive(Clone, Copy, Debug, PartialEq, Eq, Hash)]
+pub enum Policy {
+    Wait,
+    Steal,
+    TimeoutSteal,
+    TimeoutDrop,
+}
+
+pub const POLICIES: [Policy; 4] = [Policy::Wait, Policy::Steal, Policy::TimeoutSteal, Policy::TimeoutDrop];
+
+impl Policy {
+    fn name(&self) -> &'static str {
+        match self {
+            Policy::Wait => "wait",
+            Policy::Steal => "steal",
+            Policy::TimeoutSteal => "timeout_steal",
+            Policy::TimeoutDrop => "timeout_drop",
+        }
+    }
+    fn sync(&self) -> SyncPolicy {
+        // the real duration is irrelevant: single-thread engines have no timer, and under the
+        // scheduler the timeout seam decides when it fires
+        let d = std::time::Duration::from_millis(50);
+        match self {
+            Policy::Wait => SyncPolicy::Wait,
+            Policy::Steal => SyncPolicy::Steal,
+            Policy::TimeoutSteal => SyncPolicy::Timeout { duration: d, fallback: Fallback::Steal },
+            Policy::TimeoutDrop => SyncPolicy::Timeout { duration: d, fallback: Fallback::Drop },
+        }
+    }
+    /// the same policy in RSP-QL text
+    fn text(&self) -> &'static str {
+        match self {
+            Policy::Wait => "wait",
+            Policy::Steal => "steal",
+            Policy::TimeoutSteal => "(timeout=50ms, fallback=steal)",
+            Policy::TimeoutDrop => "(timeout=50ms, fallback=drop)",
+        }
+    }
+    fn parse(s: Option<&str>) -> Policy {
+        POLICIES.iter().copied().find(|p| Some(p.name()) == s).unwrap_or(Policy::Wait)
+    }
+}
 
 #[derive(Clone, Debug)]
 pub struct Case {
     pub variant: usize,
-    pub w1: (usize, usize),
-    pub w2: (usize, usize),
-    pub steal: bool,
+    pub wins: Vec<(usize, usize)>,
+    pub policy: Policy,
     pub with_static: bool,
+    pub cfg: Cfg,
     pub feed: Feed,
 }
 
-fn build(case: &Case, var: &Variant) -> Result<(RSPEngine<Triple, Row>, Arc<Mutex<Vec<Row>>>), String> {
+pub fn query_text(var: &Variant, wins: &[(usize, usize)], with_static: bool, cfg: Cfg, policy: Policy) -> String {
+    let n = var.blocks.len();
+    let (sn, wn) = (STREAM_NAMES[cfg.names], WINDOW_NAMES[cfg.names]);
+    let mut q = format!("REGISTER {} <http://out/stream> AS SELECT * ", OPS[cfg.op]);
+    for i in 0..n {
+        q += &format!("FROM NAMED WINDOW {} ON {} [RANGE {} STEP {}]", wn[i], sn[i], wins[i].0, wins[i].1);
+        if cfg.policy_in_text && i == n - 1 {
+            q += &format!(" WITH POLICY {}", policy.text());
+        }
+        q += " ";
+    }
+    let mut blocks: Vec<String> = (0..n).map(|i| format!("WINDOW {} {{ {} }}", wn[i], pat(&var.blocks[i]))).collect();
+    let static_part = if with_static { pat(&var.static_pattern) } else { String::new() };
+    if cfg.layout == 1 {
+        blocks.reverse();
+        q += &format!("WHERE {{ {} {} }}", static_part, blocks.join(" "));
+    } else {
+        q += &format!("WHERE {{ {} {} }}", blocks.join(" "), static_part);
+    }
+    q
+}
+
+fn build_engine(var: &Variant, wins: &[(usize, usize)], with_static: bool, cfg: Cfg, policy: Policy, mode: OperationMode) -> Result<(RSPEngine<Triple, Row>, Arc<Mutex<Vec<Row>>>), String> {
     let sink: Arc<Mutex<Vec<Row>>> = Arc::new(Mutex::new(Vec::new()));
     let s2 = Arc::clone(&sink);
     let consumer = ResultConsumer {
@@ -161,27 +266,14 @@ fn build(case: &Case, var: &Variant) -> Result<(RSPEngine<Triple, Row>, Arc<Mute
             s2.lock().unwrap().push(r);
         }),
     };
-    let static_part = if case.with_static { pat(&var.static_pattern) } else { String::new() };
-    let q = format!(
-        "REGISTER RSTREAM <http://out/stream> AS SELECT * FROM NAMED WINDOW :w1 ON :s1 [RANGE {} STEP {}] FROM NAMED WINDOW :w2 ON :s2 [RANGE {} STEP {}] WHERE {{ WINDOW :w1 {{ {} }} WINDOW :w2 {{ {} }} {} }}",
-        case.w1.0,
-        case.w1.1,
-        case.w2.0,
-        case.w2.1,
-        pat(&var.block1),
-        pat(&var.block2),
-        static_part
-    );
-    let q: &'static str = Box::leak(q.into_boxed_str());
+    let q: &'static str = Box::leak(query_text(var, wins, with_static, cfg, policy).into_boxed_str());
     let r2r = Box::new(SimpleR2R::with_execution_mode(QueryExecutionMode::Volcano));
-    let mut engine = RSPBuilder::new()
-        .add_rsp_ql_query(q)
-        .add_consumer(consumer)
-        .add_r2r(r2r)
-        .set_operation_mode(OperationMode::SingleThread)
-        .set_sync_policy(if case.steal { SyncPolicy::Steal } else { SyncPolicy::Wait })
-        .build()?;
-    if case.with_static {
+    let mut b = RSPBuilder::new().add_rsp_ql_query(q).add_consumer(consumer).add_r2r(r2r).set_operation_mode(mode);
+    if !cfg.policy_in_text {
+        b = b.set_sync_policy(policy.sync());
+    }
+    let mut engine = b.build()?;
+    if with_static {
         let data: String = var.static_data.iter().map(|t| line(t) + "\n").collect();
         engine.add_static_ntriples(&data);
     }
@@ -204,7 +296,7 @@ fn probe(w: (usize, usize)) -> (CSPARQLWindow<usize>, Arc<Mutex<Vec<BTreeSet<usi
     (win, sink)
 }
 
-fn answers(block: &[TP], facts: &BTreeSet<(String, String, String)>) -> BTreeSet<BTreeMap<String, String>> {
+fn answers(block: &[TP], facts: &BTreeSet<Fact>) -> BTreeSet<BTreeMap<String, String>> {
     let mut ds = Dataset::default();
     ds.default = facts.clone();
     let view = View::of(&ds, &[], &[]);
@@ -226,91 +318,171 @@ fn block_vars(block: &[TP]) -> BTreeSet<String> {
 pub struct Verdict {
     pub symptom: &'static str,
     pub detail: String,
-    pub explained: bool,
+    /// value of the explained_by tag
+    pub explained: &'static str,
 }
 
-/// Execute one case; returns (verdicts, both windows reported non-empty content, rows emitted)
-pub fn execute(case: &Case) -> Result<(Vec<Verdict>, bool, usize), String> {
+/// the contents (as fact sets) the probe of window i has reported
+fn contents_of(var: &Variant, i: usize, sink: &Arc<Mutex<Vec<BTreeSet<usize>>>>) -> Vec<BTreeSet<Fact>> {
+    sink.lock().unwrap().iter().map(|s| s.iter().flat_map(|ai| var.alphas[i][*ai].iter().cloned()).collect()).collect()
+}
+
+/// The oracle: judge emitted rows against the contents each window's probe has reported
+/// (`contents[i]` = list of reported contents of window i, possibly empty sets) and the static data.
+fn judge_rows(var: &Variant, with_static: bool, static_facts: &BTreeSet<Fact>, contents: &[Vec<BTreeSet<Fact>>], rows: &[BTreeMap<String, String>], when: &str) -> Vec<Verdict> {
+    let n = var.blocks.len();
+    let bvs: Vec<BTreeSet<String>> = var.blocks.iter().map(|b| block_vars(b)).collect();
+    let vs = block_vars(&var.static_pattern);
+    let alls: Vec<BTreeSet<Fact>> = contents.iter().map(|cs| cs.iter().flatten().cloned().collect()).collect();
+    let mut out = Vec::new();
+    for row in rows {
+        for wi in 0..n {
+            let (block, bv, own) = (&var.blocks[wi], &bvs[wi], &contents[wi]);
+            let part: BTreeMap<String, String> = row.iter().filter(|(k, _)| bv.contains(*k)).map(|(k, v)| (k.clone(), v.clone())).collect();
+            if part.len() != bv.len() {
+                out.push(Verdict { symptom: "row_misses_block_variable", detail: format!("row {:?} emitted {} does not bind all variables {:?} of WINDOW block {}: it is not a join of what every window reported", row, when, bv, wi + 1), explained: "nothing" });
+                continue;
+            }
+            if own.is_empty() {
+                out.push(Verdict {
+                    symptom: "row_emitted_before_own_window_reported",
+                    detail: format!("row {:?} emitted {} although window {} (fed only its own stream) has not reported any content: its part {:?} for WINDOW block {} cannot come from content of that window", row, when, wi + 1, part, wi + 1),
+                    explained: "nothing",
+                });
+                continue;
+            }
+            let ok = own.iter().any(|content| answers(block, content).contains(&part));
+            if !ok {
+                // would it be an answer if the other windows' items / the static data were visible?
+                let mut others: BTreeSet<Fact> = BTreeSet::new();
+                for (wj, a) in alls.iter().enumerate() {
+                    if wj != wi {
+                        others.extend(a.iter().cloned());
+                    }
+                }
+                let mut with_others = alls[wi].clone();
+                with_others.extend(others.iter().cloned());
+                let mut with_stat = alls[wi].clone();
+                with_stat.extend(static_facts.iter().cloned());
+                let mut with_both = with_others.clone();
+                with_both.extend(static_facts.iter().cloned());
+                let explained = if answers(block, &with_others).contains(&part) {
+                    "other_windows_content_visible"
+                } else if answers(block, &with_stat).contains(&part) {
+                    "static_data_visible"
+                } else if answers(block, &with_both).contains(&part) {
+                    "other_windows_content_and_static_data_visible"
+                } else {
+                    "nothing"
+                };
+                out.push(Verdict {
+                    symptom: "block_answer_not_from_own_window",
+                    detail: format!("row {:?} emitted {}: its part {:?} for WINDOW block {} is not an answer over any content window {} reported ({:?}); other windows' items {:?}; static data {:?}", row, when, part, wi + 1, wi + 1, own, others, static_facts),
+                    explained,
+                });
+            }
+        }
+        if with_static {
+            let part: BTreeMap<String, String> = row.iter().filter(|(k, _)| vs.contains(*k)).map(|(k, v)| (k.clone(), v.clone())).collect();
+            if part.len() != vs.len() || !answers(&var.static_pattern, static_facts).contains(&part) {
+                let mut widened = static_facts.clone();
+                for a in &alls {
+                    widened.extend(a.iter().cloned());
+                }
+                let explained = part.len() == vs.len() && answers(&var.static_pattern, &widened).contains(&part);
+                out.push(Verdict {
+                    symptom: "static_part_not_from_static_data",
+                    detail: format!("row {:?} emitted {}: static part {:?} is not an answer over the static data {:?}", row, when, part, static_facts),
+                    explained: if explained { "other_windows_content_visible" } else { "nothing" },
+                });
+            }
+        }
+    }
+    out
+}
+
+pub struct Exec {
+    pub verdicts: Vec<Verdict>,
+    /// every window's probe reported a non-empty content
+    pub all_nonempty: bool,
+    pub rows: usize,
+    pub rows_at_drain: usize,
+    /// number of EMPTY contents reported after a non-empty one (per case, summed over windows)
+    pub empty_after_nonempty: usize,
+    /// number of windows whose probe never reported
+    pub never_reported: usize,
+}
+
+/// Execute one single-thread case
+pub fn execute(case: &Case) -> Result<Exec, String> {
     let vars = variants();
     let var = &vars[case.variant];
-    let (mut engine, sink) = build(case, var)?;
-    let tr1: Vec<Vec<Triple>> = var.alpha1.iter().map(|ev| ev.iter().flat_map(|t| engine.parse_data(&line(t))).collect()).collect();
-    let tr2: Vec<Vec<Triple>> = var.alpha2.iter().map(|ev| ev.iter().flat_map(|t| engine.parse_data(&line(t))).collect()).collect();
-    let (mut p1, c1) = probe(case.w1);
-    let (mut p2, c2) = probe(case.w2);
-    let static_facts: BTreeSet<(String, String, String)> = if case.with_static { var.static_data.iter().cloned().collect() } else { BTreeSet::new() };
+    let n = var.blocks.len();
+    if case.wins.len() != n {
+        return Err(format!("case has {} window parameter pairs, variant {} has {} windows", case.wins.len(), var.name, n));
+    }
+    let (mut engine, sink) = build_engine(var, &case.wins, case.with_static, case.cfg, case.policy, OperationMode::SingleThread)?;
+    let trs: Vec<Vec<Vec<Triple>>> = var.alphas.iter().map(|al| al.iter().map(|ev| ev.iter().flat_map(|t| engine.parse_data(&line(t))).collect()).collect()).collect();
+    let mut probes = Vec::new();
+    let mut psinks = Vec::new();
+    for i in 0..n {
+        let (p, s) = probe(case.wins[i]);
+        probes.push(p);
+        psinks.push(s);
+    }
+    let names = STREAM_NAMES[case.cfg.names];
+    let static_facts: BTreeSet<Fact> = if case.with_static { var.static_data.iter().cloned().collect() } else { BTreeSet::new() };
     let mut verdicts = Vec::new();
     let mut seen_rows = 0usize;
-    let (v1, v2) = (block_vars(&var.block1), block_vars(&var.block2));
-    let vs = block_vars(&var.static_pattern);
     for (stream, ai, ts) in &case.feed {
-        if *stream == 0 {
-            for t in &tr1[*ai] {
-                engine.add_to_stream(":s1", t.clone(), *ts);
-            }
-            p1.add_to_window(*ai, *ts);
-        } else {
-            for t in &tr2[*ai] {
-                engine.add_to_stream(":s2", t.clone(), *ts);
-            }
-            p2.add_to_window(*ai, *ts);
+        for t in &trs[*stream][*ai] {
+            engine.add_to_stream(names[*stream], t.clone(), *ts);
         }
+        probes[*stream].add_to_window(*ai, *ts);
         let rows: Vec<BTreeMap<String, String>> = sink.lock().unwrap().iter().skip(seen_rows).map(norm).collect();
         seen_rows += rows.len();
         if rows.is_empty() {
             continue;
         }
-        let contents1: Vec<BTreeSet<(String, String, String)>> = c1.lock().unwrap().iter().map(|s| s.iter().flat_map(|i| var.alpha1[*i].iter().cloned()).collect()).collect();
-        let contents2: Vec<BTreeSet<(String, String, String)>> = c2.lock().unwrap().iter().map(|s| s.iter().flat_map(|i| var.alpha2[*i].iter().cloned()).collect()).collect();
-        let all1: BTreeSet<_> = contents1.iter().flatten().cloned().collect();
-        let all2: BTreeSet<_> = contents2.iter().flatten().cloned().collect();
-        for row in &rows {
-            for (wi, (block, bv, own, other)) in [(&var.block1, &v1, &contents1, &all2), (&var.block2, &v2, &contents2, &all1)].into_iter().enumerate() {
-                let part: BTreeMap<String, String> = row.iter().filter(|(k, _)| bv.contains(*k)).map(|(k, v)| (k.clone(), v.clone())).collect();
-                if part.len() != bv.len() {
-                    verdicts.push(Verdict { symptom: "row_misses_block_variable", detail: format!("row {:?} does not bind all variables {:?} of window block {}", row, bv, wi + 1), explained: false });
-                    continue;
-                }
-                let ok = own.iter().any(|content| answers(block, content).contains(&part));
-                if !ok {
-                    // would it be an answer if the other window's items / the static data were visible?
-                    let mut widened: BTreeSet<(String, String, String)> = own.iter().flatten().cloned().collect();
-                    widened.extend(other.iter().cloned());
-                    widened.extend(static_facts.iter().cloned());
-                    let explained = answers(block, &widened).contains(&part);
-                    verdicts.push(Verdict {
-                        symptom: "block_answer_not_from_own_window",
-                        detail: format!("emitted row {:?}: its part {:?} for WINDOW block {} is not an answer over any content window {} reported so far ({:?}); other window's items {:?}", row, part, wi + 1, wi + 1, own, other),
-                        explained,
-                    });
-                }
-            }
-            if case.with_static {
-                let part: BTreeMap<String, String> = row.iter().filter(|(k, _)| vs.contains(*k)).map(|(k, v)| (k.clone(), v.clone())).collect();
-                if part.len() != vs.len() || !answers(&var.static_pattern, &static_facts).contains(&part) {
-                    let mut widened = static_facts.clone();
-                    widened.extend(all1.iter().cloned());
-                    widened.extend(all2.iter().cloned());
-                    let explained = part.len() == vs.len() && answers(&var.static_pattern, &widened).contains(&part);
-                    verdicts.push(Verdict { symptom: "static_part_not_from_static_data", detail: format!("emitted row {:?}: static part {:?} is not an answer over the static data {:?}", row, part, static_facts), explained });
-                }
+        let contents: Vec<Vec<BTreeSet<Fact>>> = (0..n).map(|i| contents_of(var, i, &psinks[i])).collect();
+        verdicts.extend(judge_rows(var, case.with_static, &static_facts, &contents, &rows, &format!("at item ({},{},{})", stream, ai, ts)));
+    }
+    // the last firing(s): add_to_stream drains pending window results only at the start of the NEXT call
+    engine.process_single_thread_window_results();
+    let rows: Vec<BTreeMap<String, String>> = sink.lock().unwrap().iter().skip(seen_rows).map(norm).collect();
+    let rows_at_drain = rows.len();
+    seen_rows += rows.len();
+    let contents: Vec<Vec<BTreeSet<Fact>>> = (0..n).map(|i| contents_of(var, i, &psinks[i])).collect();
+    if !rows.is_empty() {
+        verdicts.extend(judge_rows(var, case.with_static, &static_facts, &contents, &rows, "at the final drain"));
+    }
+    let all_nonempty = contents.iter().all(|cs| cs.iter().any(|s| !s.is_empty()));
+    let mut empty_after_nonempty = 0;
+    for cs in &contents {
+        let mut seen = false;
+        for s in cs {
+            if !s.is_empty() {
+                seen = true;
+            } else if seen {
+                empty_after_nonempty += 1;
             }
         }
     }
-    let both = c1.lock().unwrap().iter().any(|s| !s.is_empty()) && c2.lock().unwrap().iter().any(|s| !s.is_empty());
+    let never_reported = contents.iter().filter(|cs| cs.is_empty()).count();
     drop(engine);
-    Ok((verdicts, both, seen_rows))
+    Ok(Exec { verdicts, all_nonempty, rows: seen_rows, rows_at_drain, empty_after_nonempty, never_reported })
 }
 
-/// all in-order item sequences of one stream with length <= maxlen: (alphabet index, timestamp)
-fn stream_seqs(maxlen: usize, gaps: &[usize]) -> Vec<Vec<(usize, usize)>> {
+/// all in-order item sequences of one stream with length <= maxlen over an alphabet of `nalpha`
+/// events: (alphabet index, timestamp)
+fn stream_seqs(maxlen: usize, gaps: &[usize], nalpha: usize) -> Vec<Vec<(usize, usize)>> {
     let mut out = vec![vec![]];
     let mut level: Vec<Vec<(usize, usize)>> = vec![vec![]];
     for _ in 0..maxlen {
         let mut next = Vec::new();
         for s in &level {
             let last = s.last().map_or(0, |x| x.1);
-            for ai in 0..2 {
+            for ai in 0..nalpha {
                 for &gap in gaps {
                     let mut n = s.clone();
                     n.push((ai, last + gap));
@@ -324,134 +496,167 @@ fn stream_seqs(maxlen: usize, gaps: &[usize]) -> Vec<Vec<(usize, usize)>> {
     out
 }
 
-fn interleavings(a: &[(usize, usize)], b: &[(usize, usize)]) -> Vec<Feed> {
-    fn rec(a: &[(usize, usize)], b: &[(usize, usize)], cur: &mut Feed, out: &mut Vec<Feed>) {
-        if a.is_empty() && b.is_empty() {
+/// every interleaving of the given in-order streams
+fn interleavings(seqs: &[&[(usize, usize)]]) -> Vec<Feed> {
+    fn rec(seqs: &[&[(usize, usize)]], pos: &mut Vec<usize>, cur: &mut Feed, out: &mut Vec<Feed>) {
+        let mut done = true;
+        for s in 0..seqs.len() {
+            if pos[s] < seqs[s].len() {
+                done = false;
+                let x = seqs[s][pos[s]];
+                cur.push((s, x.0, x.1));
+                pos[s] += 1;
+                rec(seqs, pos, cur, out);
+                pos[s] -= 1;
+                cur.pop();
+            }
+        }
+        if done {
             out.push(cur.clone());
-            return;
-        }
-        if let Some((x, rest)) = a.split_first() {
-            cur.push((0, x.0, x.1));
-            rec(rest, b, cur, out);
-            cur.pop();
-        }
-        if let Some((x, rest)) = b.split_first() {
-            cur.push((1, x.0, x.1));
-            rec(a, rest, cur, out);
-            cur.pop();
         }
     }
     let mut out = Vec::new();
-    rec(a, b, &mut Vec::new(), &mut out);
+    rec(seqs, &mut vec![0; seqs.len()], &mut Vec::new(), &mut out);
     out
 }
 
-fn case_json(c: &Case) -> Value {
-    json!({"variant": variants()[c.variant].name, "w1": [c.w1.0, c.w1.1], "w2": [c.w2.0, c.w2.1], "policy": if c.steal { "steal" } else { "wait" }, "static": c.with_static, "feed": c.feed})
+fn wins_json(m: &mut serde_json::Map<String, Value>, wins: &[(usize, usize)]) {
+    for (i, w) in wins.iter().enumerate() {
+        m.insert(format!("w{}", i + 1), json!([w.0, w.1]));
+    }
 }
 
-fn record(out: &mut ShardOut, case: &Case) {
+fn case_json(c: &Case) -> Value {
+    let mut m = serde_json::Map::new();
+    m.insert("variant".into(), json!(variants()[c.variant].name));
+    wins_json(&mut m, &c.wins);
+    m.insert("policy".into(), json!(c.policy.name()));
+    m.insert("static".into(), json!(c.with_static));
+    if c.cfg != BASE {
+        m.insert("names".into(), json!(c.cfg.names));
+        m.insert("layout".into(), json!(c.cfg.layout));
+        m.insert("policy_in_text".into(), json!(c.cfg.policy_in_text));
+        m.insert("op".into(), json!(OPS[c.cfg.op]));
+    }
+    m.insert("feed".into(), json!(c.feed));
+    Value::Object(m)
+}
+
+fn cfg_tags(cfg: Cfg, nwin: usize) -> Vec<String> {
+    let mut t = Vec::new();
+    if cfg.names != 0 {
+        t.push(format!("names={}", NAMES_TAG[cfg.names]));
+    }
+    if cfg.layout != 0 {
+        t.push("layout=blocks_reversed_static_first".to_string());
+    }
+    if cfg.policy_in_text {
+        t.push("policy_src=query_text".to_string());
+    }
+    if cfg.op != 0 {
+        t.push(format!("op={}", OPS[cfg.op]));
+    }
+    if nwin != 2 {
+        t.push(format!("windows={}", nwin));
+    }
+    t
+}
+
+fn record(out: &mut ShardOut, case: &Case, family: &str) {
     out.evaluations += 1;
+    let vname = variants()[case.variant].name;
     let res = guarded(|| execute(case));
-    let (verdicts, both, rows) = match res {
+    let ex = match res {
         Err(p) => {
-            out.fail(case_json(case), "panic", p, vec![format!("variant={}", variants()[case.variant].name)]);
+            let mut tags = vec![format!("variant={}", vname), format!("policy={}", case.policy.name()), format!("static={}", case.with_static)];
+            tags.extend(cfg_tags(case.cfg, case.wins.len()));
+            out.fail(case_json(case), "panic", p, tags);
             return;
         }
         Ok(Err(e)) => {
-            out.machinery_errors.push(format!("engine build failed: {}", e));
+            out.machinery_errors.push(format!("engine build failed: {} (case {})", e, case_json(case)));
             return;
         }
         Ok(Ok(x)) => x,
     };
-    if both {
+    if ex.all_nonempty && ex.rows > 0 {
         out.nontrivial(&format!("{:?}", case));
     }
-    out.outcome(&(rows, verdicts.len()));
-    out.count("rows_emitted", rows as u64);
-    out.count(&format!("rows_emitted:{}", variants()[case.variant].name), rows as u64);
-    for vd in verdicts {
-        let tags = vec![
-            format!("variant={}", variants()[case.variant].name),
-            format!("policy={}", if case.steal { "steal" } else { "wait" }),
-            format!("static={}", case.with_static),
-            format!("explained_by={}", if vd.explained { "other_windows_content_visible" } else { "nothing" }),
-        ];
+    out.outcome(&(ex.rows, ex.verdicts.len()));
+    out.count(&format!("st_runs:family={}", family), 1);
+    out.count("rows_emitted", ex.rows as u64);
+    out.count(&format!("rows_emitted:{}", vname), ex.rows as u64);
+    out.count(&format!("rows_emitted:family={}", family), ex.rows as u64);
+    out.count("rows_emitted_only_at_final_drain", ex.rows_at_drain as u64);
+    if ex.rows > 0 && ex.rows == ex.rows_at_drain {
+        out.count("cases_whose_only_rows_come_from_final_drain", 1);
+    }
+    if ex.all_nonempty {
+        out.count("cases_every_window_reported_nonempty", 1);
+        if ex.rows == 0 {
+            out.count("cases_every_window_reported_nonempty_but_no_rows", 1);
+        }
+    }
+    if ex.never_reported > 0 {
+        out.count("cases_with_a_window_that_never_reports", 1);
+        // any row here is a violation (row_emitted_before_own_window_reported)
+        out.count("rows_in_cases_with_a_window_that_never_reports", ex.rows as u64);
+    }
+    if ex.empty_after_nonempty > 0 {
+        out.count("cases_with_empty_content_reported_after_nonempty", 1);
+        out.count(&format!("rows_emitted:empty_report_cases:policy={}", case.policy.name()), ex.rows as u64);
+    }
+    if case.cfg != BASE {
+        out.count(&format!("st_runs:names={}", NAMES_TAG[case.cfg.names]), 1);
+        out.count(&format!("rows_emitted:names={}", NAMES_TAG[case.cfg.names]), ex.rows as u64);
+        out.count(&format!("rows_emitted:layout={}", case.cfg.layout), ex.rows as u64);
+        out.count(&format!("rows_emitted:op={}", OPS[case.cfg.op]), ex.rows as u64);
+        out.count(&format!("rows_emitted:policy_src={}:{}", if case.cfg.policy_in_text { "query_text" } else { "builder" }, case.policy.name()), ex.rows as u64);
+    }
+    if case.wins.len() == 3 {
+        out.count("rows_emitted:three_windows", ex.rows as u64);
+    }
+    if case.with_static && case.variant == V_STATIC_SHARES {
+        out.count("rows_judged_for_static_leak", ex.rows as u64);
+    }
+    for vd in ex.verdicts {
+        let mut tags = vec![format!("variant={}", vname), format!("policy={}", case.policy.name()), format!("static={}", case.with_static), format!("explained_by={}", vd.explained)];
+        tags.extend(cfg_tags(case.cfg, case.wins.len()));
         out.fail(case_json(case), vd.symptom, vd.detail, tags);
     }
 }
 
-
 // --- MultiThread mode under the baton scheduler (hook H1): worker per window + coordinator ---------
 
-#[derive(Clone, Copy, Debug, PartialEq, Eq)]
-pub enum MtPolicy {
-    Wait,
-    Steal,
-    TimeoutSteal,
-    TimeoutDrop,
+#[derive(Clone, Debug)]
+pub struct MtCase {
+    pub variant: usize,
+    pub wins: Vec<(usize, usize)>,
+    pub policy: Policy,
+    pub with_static: bool,
+    pub policy_in_text: bool,
+    pub feed: Feed,
 }
 
-pub const MT_POLICIES: [MtPolicy; 4] = [MtPolicy::Wait, MtPolicy::Steal, MtPolicy::TimeoutSteal, MtPolicy::TimeoutDrop];
-
-impl MtPolicy {
-    fn name(&self) -> &'static str {
-        match self {
-            MtPolicy::Wait => "wait",
-            MtPolicy::Steal => "steal",
-            MtPolicy::TimeoutSteal => "timeout_steal",
-            MtPolicy::TimeoutDrop => "timeout_drop",
-        }
+impl MtCase {
+    fn cfg(&self) -> Cfg {
+        Cfg { policy_in_text: self.policy_in_text, ..BASE }
     }
-    fn sync(&self) -> SyncPolicy {
-        // the real duration is irrelevant under the scheduler: the timeout seam decides when it fires
-        let d = std::time::Duration::from_millis(50);
-        match self {
-            MtPolicy::Wait => SyncPolicy::Wait,
-            MtPolicy::Steal => SyncPolicy::Steal,
-            MtPolicy::TimeoutSteal => SyncPolicy::Timeout { duration: d, fallback: Fallback::Steal },
-            MtPolicy::TimeoutDrop => SyncPolicy::Timeout { duration: d, fallback: Fallback::Drop },
-        }
-    }
-}
-
-fn build_mt(variant: &Variant, w1: (usize, usize), w2: (usize, usize), policy: MtPolicy) -> Result<(RSPEngine<Triple, Row>, Arc<Mutex<Vec<Row>>>), String> {
-    let sink: Arc<Mutex<Vec<Row>>> = Arc::new(Mutex::new(Vec::new()));
-    let s2 = Arc::clone(&sink);
-    let consumer = ResultConsumer {
-        function: Arc::new(move |r: Row| {
-            s2.lock().unwrap().push(r);
-        }),
-    };
-    let q = format!(
-        "REGISTER RSTREAM <http://out/stream> AS SELECT * FROM NAMED WINDOW :w1 ON :s1 [RANGE {} STEP {}] FROM NAMED WINDOW :w2 ON :s2 [RANGE {} STEP {}] WHERE {{ WINDOW :w1 {{ {} }} WINDOW :w2 {{ {} }} }}",
-        w1.0,
-        w1.1,
-        w2.0,
-        w2.1,
-        pat(&variant.block1),
-        pat(&variant.block2)
-    );
-    let q: &'static str = Box::leak(q.into_boxed_str());
-    let r2r = Box::new(SimpleR2R::with_execution_mode(QueryExecutionMode::Volcano));
-    let engine = RSPBuilder::new().add_rsp_ql_query(q).add_consumer(consumer).add_r2r(r2r).set_operation_mode(OperationMode::MultiThread).set_sync_policy(policy.sync()).build()?;
-    Ok((engine, sink))
 }
 
 /// one execution under a schedule prefix; returns the emitted rows and the trace
-fn run_mt(variant: usize, w1: (usize, usize), w2: (usize, usize), policy: MtPolicy, feed: &Feed, prefix: &[usize]) -> Result<(Vec<BTreeMap<String, String>>, sched::Trace), String> {
-    let var = variants()[variant].clone();
-    let feed2 = feed.clone();
+fn run_mt(mc: &MtCase, prefix: &[usize]) -> Result<(Vec<BTreeMap<String, String>>, sched::Trace), String> {
+    let var = variants()[mc.variant].clone();
+    let mc2 = mc.clone();
     let rows_out: Arc<Mutex<Vec<BTreeMap<String, String>>>> = Arc::new(Mutex::new(Vec::new()));
     let ro = Arc::clone(&rows_out);
     let trace = sched::run_controlled(prefix, move || {
-        let (mut engine, sink) = build_mt(&var, w1, w2, policy).expect("engine build");
-        let tr1: Vec<Vec<Triple>> = var.alpha1.iter().map(|ev| ev.iter().flat_map(|t| engine.parse_data(&line(t))).collect()).collect();
-        let tr2: Vec<Vec<Triple>> = var.alpha2.iter().map(|ev| ev.iter().flat_map(|t| engine.parse_data(&line(t))).collect()).collect();
-        for (stream, ai, ts) in &feed2 {
-            let (name, trs) = if *stream == 0 { (":s1", &tr1) } else { (":s2", &tr2) };
-            for t in &trs[*ai] {
-                engine.add_to_stream(name, t.clone(), *ts);
+        let (mut engine, sink) = build_engine(&var, &mc2.wins, mc2.with_static, mc2.cfg(), mc2.policy, OperationMode::MultiThread).expect("engine build");
+        let trs: Vec<Vec<Vec<Triple>>> = var.alphas.iter().map(|al| al.iter().map(|ev| ev.iter().flat_map(|t| engine.parse_data(&line(t))).collect()).collect()).collect();
+        let names = STREAM_NAMES[0];
+        for (stream, ai, ts) in &mc2.feed {
+            for t in &trs[*stream][*ai] {
+                engine.add_to_stream(names[*stream], t.clone(), *ts);
             }
         }
         sched::main_wait_quiescent();
@@ -462,50 +667,59 @@ fn run_mt(variant: usize, w1: (usize, usize), w2: (usize, usize), policy: MtPoli
     Ok((rows, trace))
 }
 
-fn mt_case_json(variant: usize, w1: (usize, usize), w2: (usize, usize), policy: MtPolicy, feed: &Feed, schedule: &[usize]) -> Value {
-    json!({"mode": "multi", "variant": variants()[variant].name, "w1": [w1.0, w1.1], "w2": [w2.0, w2.1], "policy": policy.name(), "feed": feed, "schedule": schedule})
+fn mt_case_json(mc: &MtCase, schedule: &[usize]) -> Value {
+    let mut m = serde_json::Map::new();
+    m.insert("mode".into(), json!("multi"));
+    m.insert("variant".into(), json!(variants()[mc.variant].name));
+    wins_json(&mut m, &mc.wins);
+    m.insert("policy".into(), json!(mc.policy.name()));
+    if mc.with_static {
+        m.insert("static".into(), json!(true));
+    }
+    if mc.policy_in_text {
+        m.insert("policy_in_text".into(), json!(true));
+    }
+    m.insert("feed".into(), json!(mc.feed));
+    m.insert("schedule".into(), json!(schedule));
+    Value::Object(m)
 }
 
-/// oracle for one multi-thread execution: every emitted row binds all variables of both blocks and
-/// each block part is an answer over some content the probe window of that block reports over
-/// the whole feed (generous: the interleaving of worker progress with the feed is schedule-dependent)
-fn mt_verdicts(variant: usize, w1: (usize, usize), w2: (usize, usize), feed: &Feed, rows: &[BTreeMap<String, String>]) -> Vec<Verdict> {
+fn mt_tags(mc: &MtCase, explained: &str) -> Vec<String> {
+    let mut t = vec![format!("variant={}", variants()[mc.variant].name), format!("policy={}", mc.policy.name()), "mode=multi".to_string(), format!("explained_by={}", explained)];
+    if mc.with_static {
+        t.push("static=true".to_string());
+    }
+    t.extend(cfg_tags(mc.cfg(), mc.wins.len()));
+    t
+}
+
+/// oracle for one multi-thread execution: every emitted row binds all variables of every block, each
+/// block part is an answer over some content the probe window of that block reports over the whole
+/// feed (generous: the interleaving of worker progress with the feed is schedule-dependent), and the
+/// static part is an answer over the static data
+fn mt_verdicts(mc: &MtCase, rows: &[BTreeMap<String, String>]) -> Vec<Verdict> {
+    if rows.is_empty() {
+        return Vec::new();
+    }
     let vars = variants();
-    let var = &vars[variant];
-    let (mut p1, c1) = probe(w1);
-    let (mut p2, c2) = probe(w2);
-    for (stream, ai, ts) in feed {
-        if *stream == 0 {
-            p1.add_to_window(*ai, *ts);
-        } else {
-            p2.add_to_window(*ai, *ts);
-        }
+    let var = &vars[mc.variant];
+    let n = var.blocks.len();
+    let mut probes = Vec::new();
+    let mut psinks = Vec::new();
+    for i in 0..n {
+        let (p, s) = probe(mc.wins[i]);
+        probes.push(p);
+        psinks.push(s);
     }
-    let contents1: Vec<BTreeSet<(String, String, String)>> = c1.lock().unwrap().iter().map(|s| s.iter().flat_map(|i| var.alpha1[*i].iter().cloned()).collect()).collect();
-    let contents2: Vec<BTreeSet<(String, String, String)>> = c2.lock().unwrap().iter().map(|s| s.iter().flat_map(|i| var.alpha2[*i].iter().cloned()).collect()).collect();
-    let all1: BTreeSet<_> = contents1.iter().flatten().cloned().collect();
-    let all2: BTreeSet<_> = contents2.iter().flatten().cloned().collect();
-    let (v1, v2) = (block_vars(&var.block1), block_vars(&var.block2));
-    let mut out = Vec::new();
-    for row in rows {
-        for (wi, (block, bv, own, other)) in [(&var.block1, &v1, &contents1, &all2), (&var.block2, &v2, &contents2, &all1)].into_iter().enumerate() {
-            let part: BTreeMap<String, String> = row.iter().filter(|(k, _)| bv.contains(*k)).map(|(k, v)| (k.clone(), v.clone())).collect();
-            if part.len() != bv.len() {
-                out.push(Verdict { symptom: "row_misses_block_variable", detail: format!("emitted row {:?} does not bind the variables {:?} of WINDOW block {}: it is not a join of what both windows reported", row, bv, wi + 1), explained: false });
-                continue;
-            }
-            if !own.iter().any(|content| answers(block, content).contains(&part)) {
-                let mut widened: BTreeSet<(String, String, String)> = own.iter().flatten().cloned().collect();
-                widened.extend(other.iter().cloned());
-                let explained = answers(block, &widened).contains(&part);
-                out.push(Verdict { symptom: "block_answer_not_from_own_window", detail: format!("emitted row {:?}: part {:?} for WINDOW block {} is not an answer over any content window {} reports ({:?})", row, part, wi + 1, wi + 1, own), explained });
-            }
-        }
+    for (stream, ai, ts) in &mc.feed {
+        probes[*stream].add_to_window(*ai, *ts);
     }
-    out
+    let contents: Vec<Vec<BTreeSet<Fact>>> = (0..n).map(|i| contents_of(var, i, &psinks[i])).collect();
+    let static_facts: BTreeSet<Fact> = if mc.with_static { var.static_data.iter().cloned().collect() } else { BTreeSet::new() };
+    judge_rows(var, mc.with_static, &static_facts, &contents, rows, "in multi-thread mode (contents: whole feed)")
 }
 
-fn record_mt(out: &mut ShardOut, ctx: &Ctx, variant: usize, w1: (usize, usize), w2: (usize, usize), policy: MtPolicy, feed: &Feed, bound: usize) {
+fn record_mt(out: &mut ShardOut, ctx: &Ctx, mc: &MtCase, bound: usize, family: &str) {
     let mut first_rows: Option<usize> = None;
     let n = sched::dfs(
         bound,
@@ -513,41 +727,43 @@ fn record_mt(out: &mut ShardOut, ctx: &Ctx, variant: usize, w1: (usize, usize), 
         |prefix| {
             out.evaluations += 1;
             out.count("mt_schedules_explored", 1);
-            let res = guarded(|| run_mt(variant, w1, w2, policy, feed, prefix));
-            let tagv = |explained: bool| vec![format!("variant={}", variants()[variant].name), format!("policy={}", policy.name()), "mode=multi".to_string(), format!("explained_by={}", if explained { "other_windows_content_visible" } else { "nothing" })];
+            out.count(&format!("mt_schedules_explored:family={}", family), 1);
+            let res = guarded(|| run_mt(mc, prefix));
             match res {
                 Err(p) => {
-                    out.fail(mt_case_json(variant, w1, w2, policy, feed, prefix), "panic", p, tagv(false));
+                    out.fail(mt_case_json(mc, prefix), "panic", p, mt_tags(mc, "nothing"));
                     None
                 }
                 Ok(Err(e)) => {
                     if e.contains("deadlock") {
-                        out.fail(mt_case_json(variant, w1, w2, policy, feed, prefix), "deadlock", e, tagv(false));
+                        out.fail(mt_case_json(mc, prefix), "deadlock", e, mt_tags(mc, "nothing"));
                     } else if e.contains("stuck") {
-                        match guarded(|| run_mt(variant, w1, w2, policy, feed, prefix)) {
-                            Ok(Err(e2)) if e2.contains("stuck") => out.fail(mt_case_json(variant, w1, w2, policy, feed, prefix), "thread_never_reaches_next_point", format!("{} (reproduced twice)", e), tagv(false)),
+                        match guarded(|| run_mt(mc, prefix)) {
+                            Ok(Err(e2)) if e2.contains("stuck") => out.fail(mt_case_json(mc, prefix), "thread_never_reaches_next_point", format!("{} (reproduced twice)", e), mt_tags(mc, "nothing")),
                             _ => out.machinery_errors.push(format!("one-off scheduler stall: {}", e)),
                         }
                     } else {
-                        out.machinery_errors.push(format!("scheduler error on {:?} prefix {:?}: {}", feed, prefix, e));
+                        out.machinery_errors.push(format!("scheduler error on {:?} prefix {:?}: {}", mc.feed, prefix, e));
                     }
                     None
                 }
                 Ok(Ok((rows, trace))) => {
                     out.max("max_mt_scheduling_points", trace.points.len() as u64);
-                    out.outcome(&(variant, policy.name(), rows.len()));
+                    out.outcome(&(mc.variant, mc.policy.name(), rows.len()));
                     if first_rows.is_none() {
                         first_rows = Some(rows.len());
                     }
                     out.count("mt_rows_emitted", rows.len() as u64);
-                    for vd in mt_verdicts(variant, w1, w2, feed, &rows) {
+                    out.count(&format!("mt_rows_emitted:family={}", family), rows.len() as u64);
+                    out.count(&format!("mt_rows_emitted:{}", variants()[mc.variant].name), rows.len() as u64);
+                    for vd in mt_verdicts(mc, &rows) {
                         // determinism before verdict: the same schedule must fail again
-                        let again = guarded(|| run_mt(variant, w1, w2, policy, feed, &trace.choices));
+                        let again = guarded(|| run_mt(mc, &trace.choices));
                         match again {
-                            Ok(Ok((r2, _))) if !mt_verdicts(variant, w1, w2, feed, &r2).is_empty() => {
-                                out.fail(mt_case_json(variant, w1, w2, policy, feed, &trace.choices), vd.symptom, vd.detail, tagv(vd.explained));
+                            Ok(Ok((r2, _))) if !mt_verdicts(mc, &r2).is_empty() => {
+                                out.fail(mt_case_json(mc, &trace.choices), vd.symptom, vd.detail, mt_tags(mc, vd.explained));
                             }
-                            _ => out.machinery_errors.push(format!("schedule replay diverged for {:?} {:?}", feed, trace.choices)),
+                            _ => out.machinery_errors.push(format!("schedule replay diverged for {:?} {:?}", mc.feed, trace.choices)),
                         }
                         break;
                     }
@@ -557,121 +773,402 @@ fn record_mt(out: &mut ShardOut, ctx: &Ctx, variant: usize, w1: (usize, usize), 
         },
     );
     out.max("max_mt_schedules_per_case", n);
+    out.max(&format!("max_mt_schedules_per_case:family={}", family), n);
     if first_rows.map_or(false, |r| r > 0) {
-        out.nontrivial(&format!("mt {:?} {:?} {:?} {:?} {:?}", variant, w1, w2, policy, feed));
+        out.nontrivial(&format!("mt {:?}", mc));
     }
 }
 
-fn run_multi_thread_family(ctx: &Ctx, out: &mut ShardOut, idx: &mut u64) {
-    if !sched::available() {
-        return;
+/// returns false when the wall-clock cap was hit
+fn mt_step(ctx: &Ctx, out: &mut ShardOut, idx: &mut u64, mc: MtCase, bound: usize, family: &str) -> bool {
+    *idx += 1;
+    if !ctx.mine(*idx) {
+        return true;
     }
-    let seqs = stream_seqs(2, &[1]);
+    if ctx.expired() {
+        if !out.capped.iter().any(|c| c.contains("multi-thread")) {
+            out.capped.push(format!("wall-clock cap hit in the multi-thread family ({})", family));
+        }
+        return false;
+    }
+    record_mt(out, ctx, &mc, bound, family);
+    true
+}
+
+/// the two small multi-thread sub-families (ROWS, THREE-WINDOW)
+fn mt_small(ctx: &Ctx, out: &mut ShardOut, idx: &mut u64) -> bool {
+    if !sched::available() {
+        return true;
+    }
+    // <= 1 preemption in both tiers (a 4-item case has ~600 such schedules, tens of thousands with 2)
+    let bound = 1;
+    // ROWS sub-family: two items on each stream, so both windows report a non-empty content (the
+    // first item of each stream). Stream 1 carries event 1 first (it joins the static data of
+    // static_join_on_two_variables); stream 2 carries its events in the given order(s): for the
+    // two-join-variable variant event 0 first gives a genuine join, event 1 first the pair whose
+    // concatenated values collide without joining.
+    let s1: Vec<(usize, usize)> = vec![(1, 1), (0, 2)];
+    let s2a: Vec<(usize, usize)> = vec![(0, 1), (1, 2)];
+    let s2b: Vec<(usize, usize)> = vec![(1, 1), (0, 2)];
+    for (variant, with_static, both_orders) in [(V_TWO_JOIN, false, true), (V_STATIC_TWO, true, false)] {
+        for wins in [vec![(2usize, 1usize), (2, 1)], vec![(2, 2), (2, 1)]] {
+            for policy in POLICIES {
+                for s2 in [&s2a, &s2b] {
+                    for feed in interleavings(&[&s1, s2]) {
+                        if (!ctx.thorough() && wins[0] != wins[1]) || (!both_orders && s2 == &s2b) {
+                            *idx += 1;
+                            continue;
+                        }
+                        let mc = MtCase { variant, wins: wins.clone(), policy, with_static, policy_in_text: with_static, feed };
+                        if !mt_step(ctx, out, idx, mc, bound, "rows") {
+                            return false;
+                        }
+                    }
+                }
+            }
+        }
+    }
+    // THREE-WINDOW sub-family: three workers + coordinator, one event per stream, two items per stream.
+    // One such case has thousands of schedules with a single preemption, so: quick = the six block
+    // orders of the streams under every NON-PREEMPTIVE schedule (bound 0: every choice at a point
+    // where the running thread blocks or ends); thorough = the block orders with <= 1 preemption and
+    // every interleaving of the three streams non-preemptively.
+    {
+        let a: Vec<(usize, usize)> = vec![(0, 1), (0, 2)];
+        let mut blocks: Vec<Feed> = Vec::new();
+        for perm in [[0usize, 1, 2], [0, 2, 1], [1, 0, 2], [1, 2, 0], [2, 0, 1], [2, 1, 0]] {
+            let mut f: Feed = Vec::new();
+            for s in perm {
+                for x in &a {
+                    f.push((s, x.0, x.1));
+                }
+            }
+            blocks.push(f);
+        }
+        let mut plan: Vec<(Vec<Feed>, usize)> = vec![(blocks.clone(), 0)];
+        if ctx.thorough() {
+            plan = vec![(interleavings(&[&a, &a, &a]), 0), (blocks, 1)];
+        }
+        for (feeds, b3) in &plan {
+            for policy in POLICIES {
+                for feed in feeds {
+                    let mc = MtCase { variant: V_THREE, wins: vec![(2, 1), (2, 1), (2, 1)], policy, with_static: false, policy_in_text: false, feed: feed.clone() };
+                    if !mt_step(ctx, out, idx, mc, *b3, if *b3 == 0 { "three_windows_nonpreemptive" } else { "three_windows" }) {
+                        return false;
+                    }
+                }
+            }
+        }
+    }
+    true
+}
+
+/// the MAIN multi-thread sub-family
+fn mt_main(ctx: &Ctx, out: &mut ShardOut, idx: &mut u64) -> bool {
+    if !sched::available() {
+        return true;
+    }
     let bound = if ctx.thorough() { 2 } else { 1 };
-    for variant in [1usize, 3, 0] {
+    let seqs = stream_seqs(2, &[1], 2);
+    for variant in [V_DISJOINT, V_SHARED, V_TWO_JOIN] {
         // disjoint vocabulary first (no known-finding noise), then shared vocabulary
         for (w1, w2) in [((2usize, 1usize), (2usize, 1usize)), ((2, 2), (2, 1))] {
-            for policy in MT_POLICIES {
+            for policy in POLICIES {
                 for a in &seqs {
                     for b in &seqs {
                         if a.is_empty() && b.is_empty() {
                             continue;
                         }
-                        for feed in interleavings(a, b) {
-                            *idx += 1;
-                            if !ctx.mine(*idx) {
+                        for feed in interleavings(&[a, b]) {
+                            // quick: feeds of <= 3 items, equal window parameters; the two-join-variable
+                            // variant cannot emit a row with <= 3 items (both windows must have reported a
+                            // non-empty content), it is in the ROWS sub-family instead
+                            if !ctx.thorough() && (a.len() + b.len() > 3 || w1 != w2 || variant == V_TWO_JOIN) {
+                                *idx += 1;
                                 continue;
                             }
-                            if !ctx.thorough() && (a.len() + b.len() > 3 || w1 != w2) {
-                                continue; // quick: feeds of <= 3 items, equal window parameters
+                            let mc = MtCase { variant, wins: vec![w1, w2], policy, with_static: false, policy_in_text: false, feed };
+                            if !mt_step(ctx, out, idx, mc, bound, "main") {
+                                return false;
                             }
-                            if ctx.expired() {
-                                if !out.capped.iter().any(|c| c.contains("multi-thread")) {
-                                    out.capped.push("wall-clock cap hit in the multi-thread family".into());
-                                }
-                                return;
-                            }
-                            record_mt(out, ctx, variant, w1, w2, policy, &feed, bound);
                         }
                     }
                 }
             }
         }
     }
+    true
+}
+
+/// returns false when the wall-clock cap was hit
+fn st_step(ctx: &Ctx, out: &mut ShardOut, idx: &mut u64, case: Case, family: &str) -> bool {
+    *idx += 1;
+    if !ctx.mine(*idx) {
+        return true;
+    }
+    if ctx.expired() {
+        if !out.capped.iter().any(|c| c.contains("single-thread")) {
+            out.capped.push(format!("wall-clock cap hit in the single-thread families ({})", family));
+        }
+        return false;
+    }
+    record(out, &case, family);
+    if out.samples.len() < 3 && case.feed.len() == 4 && *idx % 1777 == 0 {
+        out.sample(case_json(&case));
+    }
+    true
+}
+
+/// the configurations of the CONFIG family with the policies each is run under
+fn config_list(thorough: bool) -> Vec<(Cfg, Vec<Policy>)> {
+    let ws = vec![Policy::Wait, Policy::Steal];
+    let ts = vec![Policy::TimeoutSteal, Policy::TimeoutDrop];
+    if thorough {
+        let mut l = Vec::new();
+        for names in 0..3 {
+            for layout in 0..2 {
+                for policy_in_text in [false, true] {
+                    for op in 0..3 {
+                        let cfg = Cfg { names, layout, policy_in_text, op };
+                        // the base configuration under Wait/Steal is the MAIN family; the timeout
+                        // policies (no timer in single-thread mode) only where the policy source matters
+                        l.push((cfg, if cfg == BASE { ts.clone() } else if policy_in_text || cfg == (Cfg { op, ..BASE }) { POLICIES.to_vec() } else { ws.clone() }));
+                    }
+                }
+            }
+        }
+        return l;
+    }
+    vec![
+        (Cfg { names: 1, ..BASE }, ws.clone()),
+        (Cfg { names: 2, ..BASE }, ws.clone()),
+        (Cfg { layout: 1, ..BASE }, ws.clone()),
+        (Cfg { policy_in_text: true, ..BASE }, POLICIES.to_vec()),
+        (BASE, ts.clone()),
+        (Cfg { names: 1, layout: 1, policy_in_text: true, op: 1 }, ws.clone()),
+    ]
+}
+
+/// MAIN: the two-window variants in the base spelling, streams of <= 3 items
+fn st_main(ctx: &Ctx, out: &mut ShardOut, idx: &mut u64) -> bool {
+    let gaps: Vec<usize> = if ctx.thorough() { vec![1, 2] } else { vec![1] };
+    let seqs = stream_seqs(3, &gaps, 2);
+    for variant in 0..N2 {
+        for w1 in WIN {
+            for w2 in WIN {
+                for policy in [Policy::Wait, Policy::Steal] {
+                    for with_static in [false, true] {
+                        if variant == V_STATIC_SHARES && !with_static {
+                            continue; // identical to disjoint_vocabulary without static data
+                        }
+                        for a in &seqs {
+                            for b in &seqs {
+                                for feed in interleavings(&[a, b]) {
+                                    let case = Case { variant, wins: vec![w1, w2], policy, with_static, cfg: BASE, feed };
+                                    if !st_step(ctx, out, idx, case, "main") {
+                                        return false;
+                                    }
+                                }
+                            }
+                        }
+                    }
+                }
+            }
+        }
+    }
+    true
+}
+
+fn win_pairs(thorough: bool) -> Vec<((usize, usize), (usize, usize))> {
+    if thorough {
+        vec![((2, 1), (2, 1)), ((2, 1), (2, 2)), ((2, 2), (2, 1)), ((2, 2), (2, 2))]
+    } else {
+        vec![((2, 1), (2, 1)), ((2, 2), (2, 1))]
+    }
+}
+
+/// CONFIG: other spellings / configurations of the same queries, streams of <= 2 items
+fn st_config(ctx: &Ctx, out: &mut ShardOut, idx: &mut u64) -> bool {
+    let seqs2 = stream_seqs(2, &[1], 2);
+    let variants: Vec<usize> = vec![V_SHARED, V_DISJOINT, V_TWO_JOIN, V_STATIC_SHARES];
+    for (cfg, policies) in config_list(ctx.thorough()) {
+        for &variant in &variants {
+            for (w1, w2) in win_pairs(ctx.thorough()) {
+                for policy in &policies {
+                    for with_static in [false, true] {
+                        for a in &seqs2 {
+                            for b in &seqs2 {
+                                for feed in interleavings(&[a, b]) {
+                                    let case = Case { variant, wins: vec![w1, w2], policy: *policy, with_static, cfg, feed };
+                                    if !st_step(ctx, out, idx, case, "config") {
+                                        return false;
+                                    }
+                                }
+                            }
+                        }
+                    }
+                }
+            }
+        }
+    }
+    true
+}
+
+/// OPS: ISTREAM / DSTREAM need at least two emissions to show anything, DSTREAM in addition a row
+/// that disappears: streams of <= 3 items with gap 2 (items at t=2,4,6: a window of width 2 then
+/// reports {item@2} and later {item@4}, so the second join lacks rows of the first)
+fn st_ops(ctx: &Ctx, out: &mut ShardOut, idx: &mut u64) -> bool {
+    let seqs = stream_seqs(3, &[2], 2);
+    for op in [1usize, 2] {
+        for variant in [V_STATIC_SHARES] {
+            for (w1, w2) in win_pairs(ctx.thorough()) {
+                for policy in [Policy::Wait, Policy::Steal] {
+                    for a in &seqs {
+                        for b in &seqs {
+                            for feed in interleavings(&[a, b]) {
+                                let case = Case { variant, wins: vec![w1, w2], policy, with_static: true, cfg: Cfg { op, ..BASE }, feed };
+                                if !st_step(ctx, out, idx, case, "ops") {
+                                    return false;
+                                }
+                            }
+                        }
+                    }
+                }
+            }
+        }
+    }
+    true
+}
+
+/// THREE WINDOWS over three streams
+fn st_three(ctx: &Ctx, out: &mut ShardOut, idx: &mut u64) -> bool {
+    let s12 = stream_seqs(2, &[1], 2);
+    let s3 = stream_seqs(2, &[1], 1);
+    let mut triples: Vec<Vec<(usize, usize)>> = vec![vec![(2, 1), (2, 1), (2, 1)], vec![(2, 2), (2, 1), (2, 1)]];
+    if ctx.thorough() {
+        triples.clear();
+        for w1 in WIN {
+            for w2 in WIN {
+                for w3 in WIN {
+                    triples.push(vec![w1, w2, w3]);
+                }
+            }
+        }
+    }
+    for wins in &triples {
+        for policy in [Policy::Wait, Policy::Steal] {
+            for with_static in [false, true] {
+                for a in &s12 {
+                    for b in &s12 {
+                        for d in &s3 {
+                            for feed in interleavings(&[a, b, d]) {
+                                let case = Case { variant: V_THREE, wins: wins.clone(), policy, with_static, cfg: BASE, feed };
+                                if !st_step(ctx, out, idx, case, "three_windows") {
+                                    return false;
+                                }
+                            }
+                        }
+                    }
+                }
+            }
+        }
+    }
+    true
+}
+
+/// SPARSE (thorough only): a gap of 3 exceeds every width, so a window reports an empty content
+/// after a non-empty one (items at t, t+1, t+4); one event per stream, streams of <= 3 items
+fn st_sparse(ctx: &Ctx, out: &mut ShardOut, idx: &mut u64) -> bool {
+    let sp = stream_seqs(3, &[1, 3], 1);
+    for variant in [V_DISJOINT, V_STATIC_SHARES] {
+        for (w1, w2) in win_pairs(true) {
+            for policy in [Policy::Wait, Policy::Steal] {
+                for a in &sp {
+                    for b in &sp {
+                        for feed in interleavings(&[a, b]) {
+                            let case = Case { variant, wins: vec![w1, w2], policy, with_static: true, cfg: BASE, feed };
+                            if !st_step(ctx, out, idx, case, "sparse") {
+                                return false;
+                            }
+                        }
+                    }
+                }
+            }
+        }
+    }
+    true
 }
 
 fn run(ctx: &Ctx) -> ShardOut {
     let mut out = ShardOut::default();
-    let maxlen = 3;
-    let gaps: Vec<usize> = if ctx.thorough() { vec![1, 2] } else { vec![1] };
-    let seqs = stream_seqs(maxlen, &gaps);
     let mut idx = 0u64;
-    'all: for variant in 0..variants().len() {
-        for w1 in WIN {
-            for w2 in WIN {
-                for steal in [false, true] {
-                    for with_static in [false, true] {
-                        for a in &seqs {
-                            for b in &seqs {
-                                for feed in interleavings(a, b) {
-                                    idx += 1;
-                                    if !ctx.mine(idx) {
-                                        continue;
-                                    }
-                                    if idx % 64 == 0 && ctx.expired() {
-                                        out.capped.push("wall-clock cap hit".into());
-                                        break 'all;
-                                    }
-                                    let case = Case { variant, w1, w2, steal, with_static, feed };
-                                    record(&mut out, &case);
-                                    if out.samples.len() < 3 && case.feed.len() == 4 && idx % 1777 == 0 {
-                                        out.sample(case_json(&case));
-                                    }
-                                }
-                            }
-                        }
-                    }
-                }
-            }
+    // cheapest families first, so that a cap cuts the largest one
+    let mut fams: Vec<(&str, fn(&Ctx, &mut ShardOut, &mut u64) -> bool)> = vec![("st_three_windows", st_three), ("st_config", st_config), ("st_ops", st_ops)];
+    if ctx.thorough() {
+        fams.push(("st_sparse", st_sparse));
+    }
+    fams.push(("mt_rows_and_three_windows", mt_small));
+    fams.push(("st_main", st_main));
+    fams.push(("mt_main", mt_main));
+    for (name, f) in fams {
+        let t0 = std::time::Instant::now();
+        let ok = f(ctx, &mut out, &mut idx);
+        out.max(&format!("max_shard_ms:{}", name), t0.elapsed().as_millis() as u64);
+        if !ok {
+            break;
         }
     }
-    run_multi_thread_family(ctx, &mut out, &mut idx);
     out
 }
 
-fn replay(_ctx: &Ctx, case: &Value) -> ShardOut {
+fn replay(ctx: &Ctx, case: &Value) -> ShardOut {
     let mut out = ShardOut::default();
     let vars = variants();
     let Some(variant) = vars.iter().position(|v| Some(v.name) == case["variant"].as_str()) else {
         out.machinery_errors.push("replay: unknown variant".into());
         return out;
     };
+    let n = vars[variant].blocks.len();
     let pair = |k: &str| (case[k][0].as_u64().unwrap_or(2) as usize, case[k][1].as_u64().unwrap_or(1) as usize);
+    let wins: Vec<(usize, usize)> = (0..n).map(|i| pair(&format!("w{}", i + 1))).collect();
     let feed: Feed = case["feed"].as_array().map(|a| a.iter().filter_map(|p| Some((p.get(0)?.as_u64()? as usize, p.get(1)?.as_u64()? as usize, p.get(2)?.as_u64()? as usize))).collect()).unwrap_or_default();
+    if feed.iter().any(|(s, ai, _)| *s >= n || *ai >= vars[variant].alphas[*s].len()) {
+        out.machinery_errors.push("replay: feed refers to a stream or event the variant does not have".into());
+        return out;
+    }
+    let policy = Policy::parse(case["policy"].as_str());
+    let with_static = case["static"].as_bool().unwrap_or(false);
+    let policy_in_text = case["policy_in_text"].as_bool().unwrap_or(false);
     if case["mode"].as_str() == Some("multi") {
-        let policy = MT_POLICIES.iter().copied().find(|p| Some(p.name()) == case["policy"].as_str()).unwrap_or(MtPolicy::Wait);
+        let mc = MtCase { variant, wins, policy, with_static, policy_in_text, feed };
         let schedule: Vec<usize> = case["schedule"].as_array().map(|a| a.iter().filter_map(|x| x.as_u64().map(|y| y as usize)).collect()).unwrap_or_default();
         out.evaluations += 1;
-        match guarded(|| run_mt(variant, pair("w1"), pair("w2"), policy, &feed, &schedule)) {
+        match guarded(|| run_mt(&mc, &schedule)) {
             Ok(Ok((rows, trace))) => {
-                for vd in mt_verdicts(variant, pair("w1"), pair("w2"), &feed, &rows) {
-                    let tags = vec![format!("variant={}", vars[variant].name), format!("policy={}", policy.name()), "mode=multi".to_string(), format!("explained_by={}", if vd.explained { "other_windows_content_visible" } else { "nothing" })];
-                    out.fail(mt_case_json(variant, pair("w1"), pair("w2"), policy, &feed, &trace.choices), vd.symptom, vd.detail, tags);
+                for vd in mt_verdicts(&mc, &rows) {
+                    out.fail(mt_case_json(&mc, &trace.choices), vd.symptom, vd.detail, mt_tags(&mc, vd.explained));
                     break;
                 }
             }
             Ok(Err(e)) => {
                 if e.contains("deadlock") || e.contains("stuck") {
-                    out.fail(case.clone(), if e.contains("deadlock") { "deadlock" } else { "thread_never_reaches_next_point" }, e, vec!["mode=multi".into()]);
+                    out.fail(case.clone(), if e.contains("deadlock") { "deadlock" } else { "thread_never_reaches_next_point" }, e, mt_tags(&mc, "nothing"));
                 } else {
                     out.machinery_errors.push(e);
                 }
             }
-            Err(p) => out.fail(case.clone(), "panic", p, vec!["mode=multi".into()]),
+            Err(p) => out.fail(case.clone(), "panic", p, mt_tags(&mc, "nothing")),
         }
         return out;
     }
-    let c = Case { variant, w1: pair("w1"), w2: pair("w2"), steal: case["policy"].as_str() == Some("steal"), with_static: case["static"].as_bool().unwrap_or(false), feed };
-    record(&mut out, &c);
+    let _ = ctx;
+    let cfg = Cfg {
+        names: (case["names"].as_u64().unwrap_or(0) as usize).min(2),
+        layout: (case["layout"].as_u64().unwrap_or(0) as usize).min(1),
+        policy_in_text,
+        op: OPS.iter().position(|o| Some(*o) == case["op"].as_str()).unwrap_or(0),
+    };
+    let c = Case { variant, wins, policy, with_static, cfg, feed };
+    record(&mut out, &c, "replay");
     out
 }
